@@ -31,6 +31,7 @@ import (
 
 	"github.com/AdguardTeam/AdGuardHome/internal/verifkit"
 	"github.com/AdguardTeam/golibs/netutil"
+	"go.etcd.io/bbolt"
 	"golang.org/x/crypto/bcrypt"
 )
 
@@ -46,6 +47,10 @@ type c12Cfg struct {
 	Addrs    []string `json:"addresses"`
 	StartOff int64    `json:"start_offset_s"`
 	Trusted  []string `json:"trusted_proxies"`
+	// Family is empty for the random histories and "many-addresses" for the
+	// scripted family with Tracked filler addresses.
+	Family  string `json:"family,omitempty"`
+	Tracked int    `json:"tracked_addresses,omitempty"`
 }
 
 // c12Step is one executed step of a history, as it appears in witnesses.
@@ -144,6 +149,13 @@ type c12Tok struct {
 	// extLogout: a logout request carried this token's value followed by
 	// extra characters (which is not this token).
 	extLogout bool
+	// faulted: the persistent state of this token may differ from what the
+	// process answered (created, refreshed or logged out while sessions.db
+	// could not be written, or its record was lost with the bucket);
+	// faultedRestart: and a restart has read that state since.
+	faulted, faultedRestart bool
+	// logoutFault is the storage fault that was active at its logout.
+	logoutFault string
 }
 
 type c12User struct {
@@ -168,6 +180,11 @@ type c12Hist struct {
 	sawBlockCheck, sawSessReject bool
 	cur                          int // sticky address index
 	trusted                      netutil.SliceSubnetSet
+	// fault is the storage fault injected since the last restart: "",
+	// "bucket-deleted" or "db-closed".
+	fault string
+	// force >= 0 makes the next request / logout use that token.
+	force int
 }
 
 func (h *c12Hist) now() int64 { return time.Now().Unix() - c12Epoch.Unix() }
@@ -178,11 +195,17 @@ func (h *c12Hist) step(op, addr, detail string) *c12Step {
 }
 
 func (h *c12Hist) witness(extra map[string]any) map[string]any {
+	tr := h.trace
+	if len(tr) > 260 {
+		cut := c12Step{I: -1, Op: fmt.Sprintf("... %d steps omitted (filler addresses, see config and note_family) ...", len(tr)-240)}
+		tr = append(append(append([]c12Step{}, tr[:40]...), cut), tr[len(tr)-200:]...)
+	}
 	w := map[string]any{
-		"config":  h.cfg,
-		"users":   "admin/pw-admin, bob/pw-bob (bcrypt MinCost hashes)",
-		"history": h.trace,
-		"note":    "t_s is virtual seconds since 2000-01-01T00:00:00Z; restart = Auth.Close + new rate limiter + InitAuth on the same sessions.db",
+		"config":      h.cfg,
+		"users":       "admin/pw-admin, bob/pw-bob (bcrypt MinCost hashes)",
+		"history":     tr,
+		"note_family": map[string]string{"many-addresses": "remote address 198.51.100.77 is the target; filler j (0-based, j < tracked_addresses) is 10.(1+(j>>16)).((j>>8)&255).(j&255) for even j and 2001:db8:1::(j+1 in hex) for odd j; every filler makes one failed login first, 250 per virtual second"}[h.cfg.Family],
+		"note":        "t_s is virtual seconds since 2000-01-01T00:00:00Z; restart = Auth.Close + new rate limiter + InitAuth on the same sessions.db",
 	}
 	for k, v := range extra {
 		w[k] = v
@@ -470,6 +493,24 @@ func (h *c12Hist) login(ai int, kind string) {
 	mustBlock := !a.tainted && a.mode == c12Run && len(a.run) >= max && t < a.run[len(a.run)-1]+block
 	just, why := a.justify429(t, max, block)
 
+	// tracked counts the other addresses that have a live failure record in
+	// the model (recent failure or running block).
+	tracked := func() string {
+		c := 0
+		for _, o := range h.addrs {
+			if o != a && o.hasFail && (t-o.lastFail <= c12Window || len(o.run) >= max && t < o.lastFail+block) {
+				c++
+			}
+		}
+		if c < 64 {
+			return ""
+		}
+		p := 64
+		for p*2 <= c {
+			p *= 2
+		}
+		return fmt.Sprintf(":while-%d+-other-addresses-tracked", p)
+	}
 	status, cookie, hasCookie, retry, pan := h.doLogin(raddr, name, pw, hdrs)
 	// claimKey qualifies violation keys by what the attempts of the run and
 	// this attempt claimed about their address.
@@ -536,6 +577,12 @@ func (h *c12Hist) login(ai int, kind string) {
 			if claims == 2 {
 				h.rep.Event("block_enforced_on_attempt_claiming_trusted_address")
 			}
+			if h.cfg.Tracked > 0 {
+				h.rep.Event("block_enforced_checks_with_many_tracked_addresses")
+				if h.cfg.Tracked >= 512 && ai == 0 {
+					h.rep.Event("block_enforced_checks_on_new_address_with_512+_tracked")
+				}
+			}
 		}
 		if !just {
 			if a.has429 && t-a.last429 <= block {
@@ -562,7 +609,7 @@ func (h *c12Hist) login(ai int, kind string) {
 			return
 		}
 		if mustBlock {
-			h.violate("throttle:evaluated-in-block:after-"+c12RunKinds(a.runKinds)+claimKey,
+			h.violate("throttle:evaluated-in-block:after-"+c12RunKinds(a.runKinds)+claimKey+tracked(),
 				fmt.Sprintf("credentials were evaluated (403) inside the block period of %s", a.ip),
 				map[string]any{"address": a.ip, "run": a.run, "block_until": a.run[len(a.run)-1] + block})
 			return
@@ -615,7 +662,7 @@ func (h *c12Hist) login(ai int, kind string) {
 			return
 		}
 		if mustBlock {
-			h.violate("throttle:accepted-in-block:after-"+c12RunKinds(a.runKinds)+claimKey,
+			h.violate("throttle:accepted-in-block:after-"+c12RunKinds(a.runKinds)+claimKey+tracked(),
 				fmt.Sprintf("the right password was evaluated and accepted inside the block period of %s", a.ip),
 				map[string]any{"address": a.ip, "run": a.run, "block_until": a.run[len(a.run)-1] + block})
 			return
@@ -641,7 +688,7 @@ func (h *c12Hist) login(ai int, kind string) {
 			a.evals = append(a.evals, c12Eval{t: t, ok: true})
 			a.failsAfterSuccess = 0
 		}
-		h.toks = append(h.toks, &c12Tok{val: cookie, user: name, created: t, lastOK: t})
+		h.toks = append(h.toks, &c12Tok{val: cookie, user: name, created: t, lastOK: t, faulted: h.fault != ""})
 		st.Obs += fmt.Sprintf(" -> tok#%d", len(h.toks)-1)
 		h.rep.Event("sessions_created")
 		return
@@ -735,7 +782,7 @@ func (h *c12Hist) authReq() {
 	}
 	t := h.now()
 	ttl := h.cfg.TTLS
-	if len(h.toks) == 0 || h.rng.Intn(5) == 0 {
+	if h.force < 0 && (len(h.toks) == 0 || h.rng.Intn(5) == 0) {
 		// unknown / garbled / absent token
 		var val, kind string
 		with := true
@@ -761,12 +808,19 @@ func (h *c12Hist) authReq() {
 		}
 		return
 	}
-	ti := h.pickTok()
+	ti := h.force
+	if ti < 0 {
+		ti = h.pickTok()
+	}
 	k := h.toks[ti]
 	h.canon = append(h.canon, fmt.Sprintf("A:tok%d", ti))
 	st := h.step("request", raddr, fmt.Sprintf("%s cookie=tok#%d", path, ti))
 	exp := "either"
 	switch {
+	case k.faultedRestart && t <= k.lastOK+ttl:
+		// What a restart restores from a db that could not be written is
+		// not specified.
+		h.rep.Unspec("token_after_restart_from_db_that_could_not_be_written")
 	case k.loggedOut:
 		exp = "reject:logged-out"
 	case t < k.created+ttl:
@@ -814,6 +868,10 @@ func (h *c12Hist) authReq() {
 			h.rep.Event("session_reject_checks_after_logout_and_restart")
 			sfx = ":after-restart"
 		}
+		if k.logoutFault != "" {
+			h.rep.Event("session_reject_checks_after_logout_during_storage_fault")
+			sfx += ":storage-fault-" + k.logoutFault
+		}
 		if ran {
 			h.violate("session:accepted-after-logout"+sfx,
 				fmt.Sprintf("tok#%d authenticated a request after its logout", ti), map[string]any{"token": ti})
@@ -836,7 +894,7 @@ func (h *c12Hist) authReq() {
 			return
 		}
 	}
-	if exp == "either" {
+	if exp == "either" && !k.faultedRestart {
 		if ran {
 			h.rep.Event("accepted_past_initial_expiry(refreshed)")
 		} else {
@@ -850,7 +908,7 @@ func (h *c12Hist) authReq() {
 
 func (h *c12Hist) logout() {
 	raddr := h.remoteAddr(h.addrs[h.rng.Intn(len(h.addrs))].ip)
-	if len(h.toks) == 0 || h.rng.Intn(6) == 0 {
+	if h.force < 0 && (len(h.toks) == 0 || h.rng.Intn(6) == 0) {
 		val, kind := h.garble([]string{"flip-last-digit", "truncated", "extended-hex", "extended-odd", "extended-nonhex", "random-hex", "short"})
 		h.canon = append(h.canon, "O:"+strings.SplitN(kind, " of ", 2)[0])
 		st := h.step("logout", raddr, "cookie="+kind+" "+val)
@@ -871,7 +929,10 @@ func (h *c12Hist) logout() {
 		}
 		return
 	}
-	ti := h.pickTok()
+	ti := h.force
+	if ti < 0 {
+		ti = h.pickTok()
+	}
 	k := h.toks[ti]
 	h.canon = append(h.canon, fmt.Sprintf("O:tok%d", ti))
 	st := h.step("logout", raddr, fmt.Sprintf("cookie=tok#%d", ti))
@@ -882,10 +943,69 @@ func (h *c12Hist) logout() {
 		return
 	}
 	st.Obs = fmt.Sprintf("%d", code)
+	if h.fault != "" {
+		st.Exp = "token refused from now on in this process although sessions.db cannot be written (" + h.fault + ")"
+		k.faulted = true
+	}
 	if !k.loggedOut {
 		k.loggedOut = true
 		k.restartsSinceLogout = 0
+		k.logoutFault = h.fault
 		h.rep.Event("logouts")
+		if h.fault != "" {
+			h.rep.Event("logouts_during_storage_fault")
+		}
+	}
+}
+
+// injectFault makes writes to sessions.db fail from now until the next
+// restart, in a way that is harmless for the unchanged product: either the
+// sessions bucket is deleted through the product's own bbolt handle (the next
+// removal finds no bucket; the next store re-creates it), or the handle is
+// closed (every transaction fails with "database not open"; Close at the
+// restart is idempotent).  Half of the time it is followed at once by the
+// logout of a live token and a request with it.
+func (h *c12Hist) injectFault() {
+	kind := "bucket-deleted"
+	if h.rng.Intn(2) == 0 {
+		kind = "db-closed"
+	}
+	h.canon = append(h.canon, "F:"+kind)
+	st := h.step("storage-fault", "", kind)
+	var err error
+	var pan any
+	func() {
+		defer func() { pan = recover() }()
+		if kind == "db-closed" {
+			err = h.auth.db.Close()
+		} else {
+			err = h.auth.db.Update(func(tx *bbolt.Tx) error { return tx.DeleteBucket(bucketName()) })
+		}
+	}()
+	st.Obs = fmt.Sprintf("err=%v panic=%v", err, pan)
+	h.rep.Event("storage_faults_injected:" + kind)
+	if h.fault == "" || kind == "db-closed" {
+		h.fault = kind
+	}
+	var live []int
+	for i, k := range h.toks {
+		if kind == "bucket-deleted" {
+			k.faulted = true
+		}
+		if !k.loggedOut && !k.faultedRestart && h.now() < k.created+h.cfg.TTLS {
+			live = append(live, i)
+		}
+	}
+	if len(live) > 0 && h.rng.Intn(2) == 0 {
+		h.force = live[h.rng.Intn(len(live))]
+		h.authReq()
+		if !h.dead {
+			h.logout()
+		}
+		if !h.dead {
+			h.authReq()
+		}
+		h.force = -1
 	}
 }
 
@@ -907,7 +1027,11 @@ func (h *c12Hist) restart() {
 	for _, a := range h.addrs {
 		a.reset()
 	}
+	h.fault = ""
 	for _, k := range h.toks {
+		if k.faulted {
+			k.faultedRestart = true
+		}
 		k.restartsSinceCreate++
 		if k.loggedOut {
 			k.restartsSinceLogout++
@@ -1026,6 +1150,10 @@ func (h *c12Hist) run() {
 			h.auth.Close()
 		}
 	}()
+	if h.cfg.Family == "many-addresses" {
+		h.runMany()
+		return
+	}
 	nSteps := 25 + h.rng.Intn(40)
 	for i := 0; i < nSteps && !h.dead; i++ {
 		if h.rng.Intn(10) < 3 {
@@ -1043,13 +1171,91 @@ func (h *c12Hist) run() {
 			h.logout()
 		case r < 95:
 			h.advance()
-		default:
+		case r < 98:
 			h.restart()
+		default:
+			h.injectFault()
 		}
 	}
 }
 
 func c12Pick[T any](rng *rand.Rand, xs ...T) T { return xs[rng.Intn(len(xs))] }
+
+// c12Filler is the j-th filler address of the many-addresses family: IPv4 for
+// even j, an address of one IPv6 /64 for odd j.
+func c12Filler(j int) string {
+	if j%2 == 0 {
+		return fmt.Sprintf("10.%d.%d.%d", 1+(j>>16), (j>>8)&255, j&255)
+	}
+	return fmt.Sprintf("2001:db8:1::%x", j+1)
+}
+
+func (h *c12Hist) sleep(d int64, why string) {
+	if d <= 0 {
+		return
+	}
+	h.canon = append(h.canon, fmt.Sprintf("T%d", d))
+	h.step("advance", "", fmt.Sprintf("+%ds (%s)", d, why))
+	time.Sleep(time.Duration(d) * time.Second)
+	h.rep.Event("clock_advances")
+}
+
+// runMany is the scripted family "many-addresses": Tracked distinct filler
+// addresses make one failed login each within a few seconds (so that the
+// limiter tracks all of them at once), then a further address (the target,
+// h.addrs[0]) reaches the attempt limit and tries again with bad and good
+// credentials inside its block period; three of the fillers are driven to the
+// limit as well.  All checks are those of login().
+func (h *c12Hist) runMany() {
+	n, max, block := h.cfg.Tracked, h.cfg.Max, h.cfg.BlockS
+	h.rep.Event("many_address_histories")
+	h.rep.EventN("many_address_filler_addresses", n)
+	bad := []string{"unknown-user", "unknown-user", "wrong-password", "empty-password", "other-users-password"}
+	for i := 1; i <= n && !h.dead; i++ {
+		h.login(i, bad[h.rng.Intn(len(bad))])
+		if i%250 == 0 {
+			h.sleep(1, "many-addresses: pace")
+		}
+	}
+	h.sleep(2, "many-addresses: all fillers have a recent failure")
+	for j := 0; j < max && !h.dead; j++ {
+		h.login(0, bad[h.rng.Intn(len(bad))])
+	}
+	tLast := h.now()
+	seq := []string{"wrong-password", "right"}
+	if h.rng.Intn(2) == 0 {
+		seq = []string{"right", "wrong-password"}
+	}
+	for _, k := range seq {
+		if !h.dead {
+			h.login(0, k)
+		}
+	}
+	probes := []int{1, 1 + n/2, n}
+	for _, fi := range probes {
+		for j := 0; j < max-1 && !h.dead; j++ {
+			h.login(fi, bad[h.rng.Intn(len(bad))])
+		}
+		if !h.dead {
+			h.login(fi, "right")
+		}
+	}
+	h.sleep(tLast+block-1-h.now(), "many-addresses: 1 s before the end of the target's block")
+	for _, k := range []string{"right", "unknown-user"} {
+		if !h.dead {
+			h.login(0, k)
+		}
+	}
+	for _, fi := range probes {
+		if !h.dead {
+			h.login(fi, "right")
+		}
+	}
+	h.sleep(2, "many-addresses: 1 s after the end of the target's block")
+	if !h.dead {
+		h.login(0, "right")
+	}
+}
 
 func TestVerifC12(t *testing.T) {
 	rep := verifkit.New("C12", "auth",
@@ -1088,17 +1294,41 @@ func TestVerifC12(t *testing.T) {
 
 	ipPool := []string{"192.0.2.1", "192.0.2.2", "198.51.100.7", "203.0.113.9", "10.0.0.5", "2001:db8::1", "2001:db8::2", "fe80::1", "127.0.0.1", "::1"}
 
-	for i := 0; i < n; i++ {
-		hr := rand.New(rand.NewSource(rng.Int63()))
+	// The scripted family "many-addresses" follows the random histories: the
+	// number of addresses with a live failure record is drawn just above
+	// typical power-of-two bounds.
+	nMany := verifkit.Pick(10, 50)
+	manyLevels := []int{100, 300, 520, 1100, 2100}
+	rngMany := rep.Rand("many-addresses")
+	for i := 0; i < n+nMany; i++ {
+		many := i >= n
+		var hr *rand.Rand
+		if many {
+			hr = rand.New(rand.NewSource(rngMany.Int63()))
+		} else {
+			hr = rand.New(rand.NewSource(rng.Int63()))
+		}
 		cfg := c12Cfg{
 			Max:    c12Pick(hr, 1, 2, 3, 3, 5),
 			BlockS: c12Pick[int64](hr, 30, 900),
 			TTLS:   c12Pick[int64](hr, 60, 3600, 30*86400),
 		}
-		cfg.Trusted = c12TrustedSets[hr.Intn(len(c12TrustedSets))]
-		perm := hr.Perm(len(ipPool))
-		for _, j := range perm[:1+hr.Intn(4)] {
-			cfg.Addrs = append(cfg.Addrs, ipPool[j])
+		var fillers []string
+		if many {
+			level := manyLevels[(i-n)%len(manyLevels)]
+			cfg.Family, cfg.Tracked = "many-addresses", level+hr.Intn(40)
+			cfg.Trusted = c12TrustedSets[0]
+			cfg.Addrs = []string{"198.51.100.77"}
+			for j := 0; j < cfg.Tracked; j++ {
+				fillers = append(fillers, c12Filler(j))
+			}
+			rep.Class(fmt.Sprintf("family=many-addresses tracked~%d", level))
+		} else {
+			cfg.Trusted = c12TrustedSets[hr.Intn(len(c12TrustedSets))]
+			perm := hr.Perm(len(ipPool))
+			for _, j := range perm[:1+hr.Intn(4)] {
+				cfg.Addrs = append(cfg.Addrs, ipPool[j])
+			}
 		}
 		switch hr.Intn(10) {
 		case 0, 1, 2:
@@ -1114,7 +1344,7 @@ func TestVerifC12(t *testing.T) {
 		default:
 			cfg.StartOff = hr.Int63n(5 * 86400)
 		}
-		h := &c12Hist{rep: rep, rng: hr, cfg: cfg, users: users, web: web,
+		h := &c12Hist{rep: rep, rng: hr, cfg: cfg, users: users, web: web, force: -1,
 			file: filepath.Join(dir, fmt.Sprintf("sessions-%d.db", i))}
 		for _, p := range cfg.Trusted {
 			h.trusted = append(h.trusted, netip.MustParsePrefix(p))
@@ -1123,7 +1353,7 @@ func TestVerifC12(t *testing.T) {
 			h.trusted = netutil.SliceSubnetSet{}
 		}
 		rep.Class(fmt.Sprintf("trusted_proxies=%d", len(cfg.Trusted)))
-		for _, ip := range cfg.Addrs {
+		for _, ip := range append(append([]string{}, cfg.Addrs...), fillers...) {
 			a := &c12AddrState{ip: ip}
 			a.reset()
 			h.addrs = append(h.addrs, a)
@@ -1143,7 +1373,7 @@ func TestVerifC12(t *testing.T) {
 		if h.sawSessReject {
 			rep.Class("histories_with_expired_or_logged_out_token_check")
 		}
-		if i < 3 {
+		if i < 3 || i == n {
 			tr := h.trace
 			if len(tr) > 30 {
 				tr = tr[:30]
@@ -1168,6 +1398,8 @@ func TestVerifC12(t *testing.T) {
 		"session_reject_checks_after_logout_and_restart":           verifkit.Pick(5, 100),
 		"unknown_token_checks":                                     verifkit.Pick(100, 2000),
 		"restarts":                                                 verifkit.Pick(100, 2000),
+		"session_reject_checks_after_logout_during_storage_fault":  verifkit.Pick(50, 1000),
+		"block_enforced_checks_on_new_address_with_512+_tracked":   verifkit.Pick(10, 50),
 		"logins_claiming_trusted_address_from_untrusted_peer":      verifkit.Pick(300, 6000),
 		"certain_runs_with_claimed_trusted_address_reaching_limit": verifkit.Pick(50, 1000),
 		"block_enforced_on_attempt_claiming_trusted_address":       verifkit.Pick(50, 1000),
